@@ -24,7 +24,8 @@ type floodBurst struct {
 type floodCase struct {
 	ID     int          `json:"id"`
 	Cap    int          `json:"cap"`
-	Hist   int          `json:"hist"` // PINGs exchanged (answer read) before the client stops reading
+	GoAway bool         `json:"goaway"` // graceful GOAWAY(NO_ERROR) sent by the server before the flood
+	Hist   int          `json:"hist"`   // PINGs exchanged (answer read) before the client stops reading
 	Bursts []floodBurst `json:"bursts"`
 }
 type floodSample struct {
@@ -94,6 +95,26 @@ func runFlood(fc *floodCase) floodObs {
 		cr.step(Step{A: "c", K: "PING", IWS: -1, MFS: -1, CL: -1})
 		if cr.hang {
 			o.Hang = true
+			return o
+		}
+	}
+	if fc.GoAway {
+		// graceful shutdown notification: GOAWAY(NO_ERROR), the connection stays up
+		cr.stepNo++
+		cr.closeCh <- true
+		if !cr.settle() {
+			o.Hang = true
+			return o
+		}
+		seen := false
+		for _, e := range cr.evs {
+			if e.Ev == "s" && e.K == "GOAWAY" {
+				seen = true
+			}
+		}
+		if !seen {
+			o.Hang = true
+			o.Panic = "harness: no GOAWAY after the shutdown notification"
 			return o
 		}
 	}
